@@ -665,6 +665,8 @@ func runC16(c *Ctx) {
 		c16Execute(c, k, "random")
 	})
 
+	c16S3Main(c) // Server / Listener teardown replay (c16_s3.go)
+
 	// 3. end-to-end scenarios (child processes)
 	c16E2EParent(c)
 
